@@ -104,6 +104,7 @@ pub fn replay_line(ctx: &mut Ctx, l: &str) -> bool {
     let w: Vec<&str> = l.split_whitespace().collect();
     match w.as_slice() {
         ["c06.refused", fl, m, which, accept] => { refused_case(ctx, if *fl == "tokio" { Flavour::Tokio } else { Flavour::Blocking }, *m == "c", which.parse().unwrap_or(0), accept.parse().unwrap_or(0)); true },
+        ["ws.backpressure", n] => { crate::c20::backpressure_case_p(ctx, "c06", n.parse().unwrap_or(3000)); true },
         ["framed.write", fl, m, frames, ws] => {
             let frames: Vec<Vec<u8>> = if *frames == "-" { vec![] } else { frames.split('+').map(unhex).collect() };
             write_case(ctx, if *fl == "tokio" { Flavour::Tokio } else { Flavour::Blocking }, *m == "c", &frames, parse_wevents(ws));
@@ -115,6 +116,10 @@ pub fn replay_line(ctx: &mut Ctx, l: &str) -> bool {
 
 pub fn generate(ctx: &mut Ctx) {
     let quick = ctx.quick();
+    // a transport that really is "not ready" for a while: the WebSocket adaptor over a loopback socket with small buffers and a
+    // peer that does not read for 400 ms — every written packet arrives once, whole, in call order
+    crate::c20::backpressure_case_p(ctx, "c06", if quick { 3000 } else { 20000 });
+    ctx.exhaustive_domains.push("one session of thousands of writes through the WebSocket adaptor against a stalled peer (the transport reports not-ready many times)".into());
     for compressed in [true, false] {
         let pool = build_pool(compressed);
         let mut all_frames: Vec<Vec<u8>> = pool.by_type.iter().map(|(_, f)| f.clone()).collect();
